@@ -202,6 +202,9 @@ func dateSpecs(thorough bool) []spec {
 				sub = append(sub, x)
 			}
 		}
+		// plus pairs of triples that differ only in where an empty separator sits (same concatenation, different layout):
+		// the layout must be derived from the triple, not from any flattened form of it
+		sub = append(sub, tr{"-", "", ":"}, tr{"", "-", ":"}, tr{"/", "", "."}, tr{"", "/", "."}, tr{" ", "", " "}, tr{"", " ", " "})
 		triples = sub
 	}
 	mk("datetime", 6, func(x tr) string { return "datetime='" + x.d + "," + x.m + "," + x.t + "'" }, triples)
